@@ -61,6 +61,7 @@ const (
 	OpFToF // A = target fp width
 	OpFAbs
 	OpFSqrt
+	OpFRound // A = rounding mode: 0 RTZ (Trunc), 1 RTN (Floor), 2 RTP (Ceil), 3 RNE (RoundToEven), 4 RNA (Round)
 )
 
 var opName = map[Op]string{
@@ -329,6 +330,8 @@ func (c *Ctx) Un(op Op, x *Term) *Term {
 	switch op {
 	case OpFNeg, OpFAbs, OpFSqrt:
 		return c.app(op, x.W, true, 0, 0, x)
+	case OpFRound:
+		panic("use FRound")
 	case OpFIsNaN:
 		return c.app(op, 0, false, 0, 0, x)
 	}
@@ -390,6 +393,9 @@ func (c *Ctx) FToF(x *Term, fw int) *Term {
 	}
 	return c.app(OpFToF, fw, true, fw, 0, x)
 }
+
+// FRound is fp.roundToIntegral with the given mode (see OpFRound).
+func (c *Ctx) FRound(mode int, x *Term) *Term { return c.app(OpFRound, x.W, true, mode, 0, x) }
 
 // ---- evaluation
 
@@ -565,6 +571,21 @@ func evalOp(t *Term, arg func(i int) uint64) uint64 {
 		return arg(0) &^ (uint64(1) << uint(w-1))
 	case OpFSqrt:
 		return fbits(math.Sqrt(fval(arg(0), w)), w)
+	case OpFRound:
+		f := fval(arg(0), w)
+		switch t.A {
+		case 0:
+			f = math.Trunc(f)
+		case 1:
+			f = math.Floor(f)
+		case 2:
+			f = math.Ceil(f)
+		case 3:
+			f = math.RoundToEven(f)
+		case 4:
+			f = math.Round(f)
+		}
+		return fbits(f, w)
 	case OpFLt:
 		return b2u(fval(arg(0), aw) < fval(arg(1), aw))
 	case OpFLe:
